@@ -179,6 +179,7 @@ def run(ctx):
     ctx.run_rule('C11.3a', 'T5', 'bool decoding rejects every byte but 0 and 1', codec.r_strict_bool, prog)
     ctx.run_rule('C11.3b', 'T5', 'strings are validated with String::from_utf8', codec.r_strict_utf8, prog)
     ctx.run_rule('C11.3c', 'T5', 'varints narrow through TryFrom; tags are range-checked varint32', codec.r_varint_narrowing, prog)
+    ctx.run_rule('C11.3e', 'T3', 'a duplicate dictionary key is an error', codec.r_duplicate_keys, prog)
     ctx.run_rule('C11.3d', 'T5', 'reply types: strict bit-sequence, strict level, tagged fields skipped', r_reply_types, prog)
     ctx.run_rule('C11.4', 'T10', 'announced lengths reach reservations only bounded by remaining()', codec.r_announced_sizes, prog)
     ctx.run_rule('C11.5', 'T1', 'reply decode errors are values: propagated, converted, never unwrapped', r_reply_errors_are_values, prog)
